@@ -203,7 +203,35 @@ def div_neg_proof():
     return out
 
 
+def _pointwise_le(a, b):
+    j = z3.Int("j!sm")
+    return z3.And(S.f_len(a) == S.f_len(b),
+                  z3.ForAll([j], z3.Implies(z3.And(0 <= j, j < S.f_len(a)), S.f_at(a, j) <= S.f_at(b, j)),
+                            patterns=[S.f_at(a, j), S.f_at(b, j)]))
+
+
+def sum_mono(a, b):
+    """equal lengths and a[j] <= b[j] everywhere => every prefix sum of a is <= that of b (in particular the sums)"""
+    i = z3.Int("i!sm")
+    return z3.Implies(_pointwise_le(a, b),
+                      z3.ForAll([i], z3.Implies(z3.And(0 <= i, i <= S.f_len(a)), S.f_prefix(a, i) <= S.f_prefix(b, i)),
+                                patterns=[S.f_prefix(a, i), S.f_prefix(b, i)]))
+
+
+def sum_mono_proof():
+    a = z3.Const("a!l", S.SeqSort)
+    b = z3.Const("b!l", S.SeqSort)
+    k = z3.Int("k!l")
+    pw = _pointwise_le(a, b)
+    return [
+        ("lemma-base", "sum_mono", [pw], S.f_prefix(a, 0) <= S.f_prefix(b, 0)),
+        ("lemma-step", "sum_mono", [pw, 0 <= k, k < S.f_len(a), S.f_prefix(a, k) <= S.f_prefix(b, k)],
+         S.f_prefix(a, k + 1) <= S.f_prefix(b, k + 1)),
+    ]
+
+
 LEMMAS = {
+    "sum_mono": (sum_mono, sum_mono_proof),
     "ceil_identity": (ceil_identity, ceil_identity_proof),
     "div_neg": (div_neg, div_neg_proof),
     "mod_neg_zero": (mod_neg_zero, mod_neg_zero_proof),
